@@ -365,15 +365,15 @@ def gen_history22(rng, maxlen=8):
             if t in alive:
                 pipes[p] = t
         elif k < 60 and next_p > 1:
-            p = "p%d" % rng.range(1, next_p - 1)
+            p = rng.choice(sorted(pipes)) if pipes and rng.chance(5, 6) else "p%d" % rng.range(1, next_p - 1)
             t = pipes.get(p) or rng.choice(created)
             ops.append(["reload", t, p, rng.below(3)])
         elif k < 72 and next_p > 1:
-            p = "p%d" % rng.range(1, next_p - 1)
+            p = rng.choice(sorted(pipes)) if pipes and rng.chance(5, 6) else "p%d" % rng.range(1, next_p - 1)
             t = pipes.get(p) or rng.choice(created)
             ops.append(["delpipe", t, p])
             pipes.pop(p, None)
-        elif k < 84 and created:
+        elif k < 80 and created:
             t = rng.choice(created)
             ops.append(["deltenant", t])
             alive.discard(t)
